@@ -4,3 +4,4 @@ import CvDriver.C15
 import CvDriver.C11
 import CvDriver.Mod
 import CvDriver.C20
+import CvDriver.C13
